@@ -317,41 +317,46 @@ def rule_flag_back(ctx):
         isinstance(c, ast.Call) and call_simple_name(c) == "_check_property" for s in n.body for c in walk_no_nested(s))]
     if len(loops) != 1:
         raise AnalysisError("_STIXBase.__init__: cleaning loop not found")
-    acc = False
-    for s in walk_no_nested(loops[0]):
-        if isinstance(s, ast.Assign) and len(s.targets) == 1 and norm(s.targets[0]) == "has_custom":
-            pr = fl.prov(s.value, g.node_of(s))
-            if "_check_property" in pr.calls and "has_custom" in names_in(s.value):
-                acc = True
-    run.check(acc, R, key(rel, init.qualname, "accumulates-cleaner-flags"),
-              "the constructor does not accumulate the has_custom results of its property cleaners", file=rel,
-              line=loops[0].lineno, function=init.qualname, expected="has_custom = has_custom or <_check_property result>",
-              found="absent")
-    seeds = [n for n in body_walk(init.node) if isinstance(n, ast.Assign) and norm(n.targets[0]) == "has_custom"
-             and loops[0] not in list(_parents(n))]
-    seed_ok = any("all_custom_prop_names" in norm(s.value) for s in seeds)
-    run.check(seed_ok, R, key(rel, init.qualname, "seeded-by-custom-property-names"),
-              "custom top-level properties no longer set the flag", file=rel, line=init.node.lineno, function=init.qualname,
-              expected="has_custom = bool(all_custom_prop_names)", found=[short(s) for s in seeds])
-    # stored under allow_custom; strict branch keeps the backstop
+    # the flag variable is whatever is stored into self.__has_custom under allow_custom (name-independent)
     stores = [n for n in body_walk(init.node) if isinstance(n, ast.Assign) and isinstance(n.targets[0], ast.Attribute)
               and n.targets[0].attr.endswith("__has_custom")]
     perm = [s for s in stores if any(pol and norm(t) == SWITCH for t, pol, _ in guard_chain(s))]
     strict = [s for s in stores if any((not pol) and norm(t) == SWITCH for t, pol, _ in guard_chain(s))]
-    ok = len(perm) == 1 and norm(perm[0].value) == "has_custom" and len(strict) == 1 and norm(strict[0].value) == "False"
+    FLAG = norm(perm[0].value) if len(perm) == 1 and isinstance(perm[0].value, ast.Name) else None
+    ok = FLAG is not None and len(strict) == 1 and norm(strict[0].value) == "False"
     run.check(ok, R, key(rel, init.qualname, "flag-stored"), "the flag stored on the object is not the accumulated one", file=rel,
               line=init.node.lineno, function=init.qualname,
-              expected="if allow_custom: self.__has_custom = has_custom else: (backstop) self.__has_custom = False",
+              expected="if allow_custom: self.__has_custom = <accumulated flag> else: (backstop) self.__has_custom = False",
               found=[short(s) for s in stores])
+    acc = False
+    for s in walk_no_nested(loops[0]):
+        if isinstance(s, ast.Assign) and len(s.targets) == 1 and norm(s.targets[0]) == FLAG:
+            pr = fl.prov(s.value, g.node_of(s))
+            if "_check_property" in pr.calls and FLAG in names_in(s.value):
+                acc = True
+    run.check(acc, R, key(rel, init.qualname, "accumulates-cleaner-flags"),
+              "the constructor does not accumulate the has_custom results of its property cleaners", file=rel,
+              line=loops[0].lineno, function=init.qualname, expected="flag = flag or <_check_property result>",
+              found="absent")
+    seeds = [n for n in body_walk(init.node) if isinstance(n, ast.Assign) and norm(n.targets[0]) == FLAG
+             and loops[0] not in list(_parents(n))]
+    seed_ok = False
+    for s in seeds:
+        pr = fl.prov(s.value, g.node_of(s))
+        if init.kwarg in pr.params and "_properties" in pr.selfattrs:
+            seed_ok = True
+    run.check(seed_ok, R, key(rel, init.qualname, "seeded-by-custom-property-names"),
+              "custom top-level properties no longer set the flag", file=rel, line=init.node.lineno, function=init.qualname,
+              expected="flag = bool(<keyword names that are not defined properties>)", found=[short(s) for s in seeds])
     backstop = False
     for n in body_walk(init.node):
-        if isinstance(n, ast.If) and norm(n.test) == "has_custom" and any(
+        if isinstance(n, ast.If) and norm(n.test) == FLAG and any(
                 isinstance(s, ast.Raise) and exc_name(s) == "STIXError" for s in n.body):
             if any((not pol) and norm(t) == SWITCH for t, pol, _ in guard_chain(n)):
                 backstop = True
     run.check(backstop, R, key(rel, init.qualname, "strict-backstop"),
               "the strict-mode backstop (flag set although customisation is disallowed -> error) is gone", file=rel,
-              line=init.node.lineno, function=init.qualname, expected="else: if has_custom: raise STIXError", found="absent")
+              line=init.node.lineno, function=init.qualname, expected="else: if <flag>: raise STIXError", found="absent")
     # the property exposes the stored flag
     hc = prog.cls("stix2.base::_STIXBase").methods.get("has_custom")
     run.check(hc is not None and "return self.__has_custom" in norm(hc.node), R, key(rel, "_STIXBase.has_custom", "exposes-flag"),
@@ -569,8 +574,9 @@ def rule_raw_passthrough(ctx):
                               file=rel, line=r.lineno, function=fi.qualname, expected="`if allow_custom: return <input>`",
                               found=[norm(t) for t, _, _ in gc])
         # the no-class branch ends in ParseError
+        cls_vars = {norm(a.targets[0]) for a in body_walk(fi.node) if isinstance(a, ast.Assign) and "class_for_type(" in norm(a.value)}
         ends = [x for x in body_raises(fi.node.body) if exc_name(x) == "ParseError" and any(
-            pol and norm(t) == "not obj_class" for t, pol, _ in guard_chain(x))]
+            pol and norm(t) in {"not " + v for v in cls_vars} for t, pol, _ in guard_chain(x))]
         run.check(bool(ends), R, key(rel, fi.qualname, "unknown-type-raises"), "an unknown type no longer ends in ParseError",
                   file=rel, line=fi.node.lineno, function=fi.qualname, expected="if not obj_class: ... raise ParseError",
                   found="absent")
@@ -586,7 +592,15 @@ def rule_extra_props(ctx):
     rel = fi.module.relpath
     tests = [n for n in body_walk(fi.node) if isinstance(n, ast.If) and any(
         isinstance(s, ast.Raise) and exc_name(s) == "ExtraPropertiesError" for s in n.body)]
-    ok = len(tests) == 1 and sorted(norm(x) for x in conjuncts(tests[0].test)) == ["custom_kwargs", "not " + SWITCH]
+    ok = False
+    if len(tests) == 1:
+        cj = conjuncts(tests[0].test)
+        ok = len(cj) == 2 and sum(1 for x in cj if isinstance(x, ast.Name)) == 1 and any(norm(x) == "not " + SWITCH for x in cj)
+        if ok:
+            # the tested name is the set `kwargs - defined properties [- toplevel extension properties]`
+            nm = [x for x in cj if isinstance(x, ast.Name)][0]
+            pr = flow_of(fi).prov(nm, cfg_of(fi).node_of(tests[0]))
+            ok = fi.kwarg in pr.params and "_properties" in pr.selfattrs
     run.check(ok, R, key(rel, fi.qualname, "extra-properties-guard"),
               "unknown top-level properties are not refused exactly when customisation is disallowed", file=rel,
               line=tests[0].lineno if tests else fi.node.lineno, function=fi.qualname,
